@@ -110,7 +110,9 @@ struct Peer {
 	std::vector<J> pending; // scheduled data changes: {t_ns, edits}
 	bool clean = false;
 	uint64_t t_clean = 0;
+	uint64_t down_until = 0; // unreachable: every open fails until then
 	bool converged = false;
+	bool tainted = false; // accepted a well-formed response that did not carry the cache's real state
 	uint64_t t_converged = 0;
 	std::vector<Exchange> xs;
 	// ---- client side observation
@@ -128,6 +130,8 @@ struct Peer {
 	uint64_t wait_enter_ns = 0, wait_return_ns = 0;
 	bool wait_returned_success = false;
 	bool notify_consumed = false;
+	bool may_downgrade = false;
+	uint64_t trigger_ns = 0;
 	int pending_downgrade = 0; // C13: a licensed trigger was observed; next PDU sent must carry this version (+1 offset), 0 = none
 	bool c03_pending = false; // after a listed failure with records kept: next query must equal at_query expectation
 	Belief c03_expect;
